@@ -91,6 +91,9 @@ def check_config(ctx, cell, case):
     if not ok:
         return
     ctx.check(tuple(y1.shape) == tuple(x.shape), "C07.shape", cell, case, list(y1.shape), list(x.shape), checker=CHK)
+    x_before = x.clone()
+    run(kind, "snr", 3.0, x, seed)
+    ctx.check(bool(torch.equal(x, x_before)), "C07.input_unmodified", cell, case, None, None, "channel modified its input tensor", CHK)
     unit = (y1 - s).detach().numpy().astype(np.complex128 if (cplx or kind == "fading_stage") else np.float64) / np.sqrt(p_big)
     scale_u = float(np.sqrt(np.mean(np.abs(unit) ** 2)))
     max_u = float(np.max(np.abs(unit)))
